@@ -35,6 +35,24 @@ type Account struct {
 	Nonce   uint64            `json:"nonce"`
 	Code    []byte            `json:"-"`
 	Storage map[uint64]uint64 `json:"-"`
+	Real    *common.Address   `json:"-"` // the actual 20-byte address when it is not a small integer
+	Tok     int64             `json:"-"` // ... and the token that stands for it in traces
+}
+
+// ID returns the specification value of the account's address.
+func (a *Account) ID() int64 {
+	if a.Real != nil {
+		return a.Tok
+	}
+	return int64(a.Addr)
+}
+
+// Address returns the 20-byte address of the account.
+func (a *Account) Address() common.Address {
+	if a.Real != nil {
+		return *a.Real
+	}
+	return Addr(a.Addr)
 }
 
 // World is a generated pre-state.
@@ -80,7 +98,7 @@ func (w *World) NewState(rules params.Rules) *state.StateDB {
 		panic(err)
 	}
 	for _, a := range w.Accounts {
-		ad := Addr(a.Addr)
+		ad := a.Address()
 		sdb.CreateAccount(ad)
 		sdb.SetBalance(ad, uint256.NewInt(a.Balance), tracing.BalanceChangeUnspecified)
 		sdb.SetNonce(ad, a.Nonce, tracing.NonceChangeUnspecified)
